@@ -514,6 +514,15 @@ def sv_specs(tier):
             ("3q/real-product", (G, (G, (G, c_(0), c_(0)), (H_, c_(0), c_(0))), (L, (L, c_(0), Z_), (G, Z_, Z_)))),
             ("3q/uniform-1+i", (H_, (H_, (H_, c_(1), c_(1)), (H_, c_(1), c_(1))), (H_, (H_, c_(1), c_(1)), (H_, c_(1), c_(1)))))]
     out += [("3q/general", (G, g2, (G, (G, S_, S_), (G, S_, S_)))), ("3q/left-half-general", (L, g2, z2))]
+    # a factor qubit exactly |0> / |1> at the LAST index position with the other amplitudes carrying different phases
+    # (levels where every RY angle vanishes but some RZ angle does not, and vice versa)
+    out += [("2q/w(x)0-phases", (G, (L, c_(1), Z_), (L, c_(-2), Z_))),
+            ("2q/w(x)0-sym", (G, (L, S_, Z_), (L, S_, Z_))),
+            ("2q/w(x)1-phases", (G, (RR, Z_, c_(1)), (RR, Z_, c_(3)))),
+            ("2q/w(x)plus-phases", (G, (H_, c_(1), c_(1)), (H_, c_(-2), c_(-2)))),
+            ("3q/w(x)0-phases", (G, (G, (L, c_(1), Z_), (L, c_(3), Z_)), (G, (L, c_(-2), Z_), (L, c_(4), Z_)))),
+            ("3q/w(x)00-phases", (G, (L, (L, c_(1), Z_), (G, Z_, Z_)), (L, (L, c_(-2), Z_), (G, Z_, Z_)))),
+            ("3q/0(x)w(x)0-sym", (L, (G, (L, S_, Z_), (L, S_, Z_)), z2))]
     if tier == "thorough":
         out += [("3q/general-consts", (G, (G, (G, S_, c_(4)), (G, c_(2), S_)), (G, (G, c_(-1), S_), (G, S_, c_(3))))),
                 ("3q/real-positive", (G, (G, (G, c_(0), c_(0)), (G, c_(0), c_(0))), (G, (G, c_(0), c_(0)), (G, c_(0), c_(0))))),
